@@ -11,7 +11,8 @@ ID = "C11"
 WITNESS = ()
 RULE = (
     "direction pairs (u, v) on the integer lattice built by relation recipe: parallel(k), antiparallel(k) for "
-    "k in {1,2,3,1/2,5}, exactly perpendicular (cross-product construction), generic; wrapped as Line/Line, "
+    "k in {1,2,3,1/2,5}, exactly perpendicular (cross-product construction), near-parallel (long directions a quarter "
+    "lattice step apart, within about one degree), generic; wrapped as Line/Line, "
     "Line/Plane, Plane/Line, Plane/Plane, Vector/Vector with generated support points; function form in both "
     "argument orders and the method form on Line/Plane receivers. Oracle: angle = atan2(|u x v|, |u.v|) from the "
     "exact cross and dot products (complemented for line/plane) within 1e-7, range [0, pi/2]; parallel <=> exact "
